@@ -98,6 +98,9 @@ def scenario(seed):
         sizes = [int(base * rnd.uniform(0.93, 1.07)) for _ in range(K)]
     else:
         sizes = [int(rnd.randint(200, 801)) for _ in range(K)]
+    if seed % 5 == 3:
+        # the float-file / log-clustering scenarios: the dimmest population of the first channel piles up at the lower limit
+        chans[0]['sat_lo'] = True
     cluster = rnd.choice(['all', 'first', 'two']) if nch >= 2 else 'all'
     stat = rnd.choice(['median', 'mean'])
     return dict(seed=int(seed), K=K, nch=nch, blank=blank, chans=chans, cv=float(cv), sizes=sizes, cluster=str(cluster),
@@ -116,6 +119,7 @@ def run_scenario(sc):
     # decades of the log amplifier per channel: in every other scenario the channels (and so their ranges in RFI,
     # 10^4 / 10^5 / 10^4.5) differ inside one calibration and from one calibration of this process to the next
     decades = [ch['decades'] for ch in sc['chans']]
+    floatfile = sc['seed'] % 5 == 3          # these scenarios also cluster on the log scale (below)
     cols = []
     for c, ch in enumerate(sc['chans']):
         a0 = decades[c]
@@ -126,6 +130,17 @@ def run_scenario(sc):
             mu = (tot / math.exp(ch['b'])) ** (1.0 / ch['m'])
             v = mu * (1.0 + sc['cv'] * rnd.standard_normal(sc['sizes'][p]))
             v = np.clip(v, 1e-3, None)
+            if floatfile:
+                # floating-point file, linear "amplifier": the readings ARE the fluorescence values; a population piled
+                # up at the lower limit sits at exactly 0
+                top = 10.0 ** a0 - 1.0
+                x = v.astype(np.float32).astype(np.float64)
+                if ch['sat_hi'] and p == K - 1:
+                    x[:] = top
+                if ch['sat_lo'] and p == 0:
+                    x[:] = 0.0
+                col.append(np.clip(x, 0.0, top))
+                continue
             x = np.round(r / a0 * np.log10(v)).astype(int)
             if ch['sat_hi'] and p == K - 1:
                 x[:] = 1023
@@ -140,8 +155,12 @@ def run_scenario(sc):
     names = ['FL%d' % (c + 1) for c in range(nch)] + ['FSC']
     d = os.environ.get('C02_DIR')
     path = os.path.join(d, 'beads_%d.fcs' % sc['seed'])
-    fcsgen.write_sample(path, data.tolist(), names, [1024] * (nch + 1), bits=16,
-                        pne=['%s,1' % ('%g' % decades[c]) for c in range(nch)] + ['0,0'])
+    if floatfile:
+        fcsgen.write_sample(path, [[float(v) for v in row] for row in data], names, [int(10 ** decades[c]) for c in range(nch)] + [1024],
+                            datatype='F', pne=['0,0'] * (nch + 1))
+    else:
+        fcsgen.write_sample(path, data.tolist(), names, [1024] * (nch + 1), bits=16,
+                            pne=['%s,1' % ('%g' % decades[c]) for c in range(nch)] + ['0,0'])
     mef_values = [[(np.nan if ch['unknown'][p] else ch['mef'][p]) for p in range(K)] for ch in sc['chans']]
     mef_channels = names[:nch]
     if sc['cluster'] == 'first':
